@@ -255,7 +255,7 @@ func TestVerifByteStream(t *testing.T) {
 				continue
 			}
 		}
-		committed, err, timedOut := f.vWriteMsgs(msgs, closeSend, 3*time.Second)
+		committed, err, timedOut := f.vWriteMsgs(msgs, closeSend, 10*time.Second)
 		res := vGRPCCode(err)
 		{
 			// the same message sequence for model M10's writeRPC
